@@ -267,10 +267,32 @@ var battery = []sequence{
 		tx.ProcessLogging()
 	}},
 	{"no-calls", func(tx types.Transaction) {}},
+	// values around the sizes at which log fields are cut (200..512 bytes), made of bytes on which a
+	// "do not split a character" cut has nowhere to stop: UTF-8 continuation bytes only, and a two-byte
+	// character straddling every even / odd offset
+	{"long-fields", func(tx types.Transaction) {
+		cont := rep("\x80\xbf", 600)
+		tx.ProcessConnection("10.0.0.1", 1234, "10.0.0.2", 80)
+		tx.ProcessURI("/p?k="+rep("%80", 3*600)+"&b=a"+rep("é", 600)+"&zzz="+rep("é", 600), "GET", "HTTP/1.1")
+		tx.AddRequestHeader("Host", "c07.test")
+		tx.AddRequestHeader("K", cont)
+		tx.AddRequestHeader("User-Agent", "zzz"+cont)
+		tx.AddRequestHeader("Cookie", "k="+cont+"; s="+rep("é", 600))
+		tx.AddRequestHeader("Content-Type", ctForm)
+		tx.ProcessRequestHeaders()
+		_, _, _ = tx.WriteRequestBody([]byte("k=" + cont))
+		_, _ = tx.ProcessRequestBody()
+		tx.AddResponseHeader("Content-Type", "text/plain")
+		tx.AddResponseHeader("K", cont)
+		tx.ProcessResponseHeaders(200, "HTTP/1.1")
+		_, _, _ = tx.WriteResponseBody([]byte(cont))
+		_, _ = tx.ProcessResponseBody()
+		tx.ProcessLogging()
+	}},
 }
 
 // quickBattery: indexes of the sequences the quick tier runs.
-var quickBattery = []int{0, 1, 4, 6, 7, 9, 10, 11, 12, 14}
+var quickBattery = []int{0, 1, 4, 6, 7, 9, 10, 11, 12, 14, 18}
 
 // observe reads everything a connector reads from a finished transaction.
 func observe(tx types.Transaction) string {
